@@ -7,6 +7,10 @@ C15 driver ops: the verdict of `Model.Handshake` on the operation lines of harne
   hsout <role> <flags> <k>        the stream from E to its peer ends after k records of E
   chmod <mode> <kind> <field>     one field of the genuine ClientHello rewritten: verdict and the server's answer
   shmod <kind> <offer> <field>    one field of the genuine ServerHello rewritten: does the client go on, which alert
+  shmodv <cmax> <smax> <offer> <field>   the same for a TLS client / server with Config.MaxVersion set (harness/c15strict.go)
+  shticket <kind>                        a session_ticket extension added to the ServerHello for a client that offered none
+  chext <mode> <kind> <ext> <body>       the body of one extension of the genuine ClientHello replaced: does the server's
+                                         parser take it (`Model.TLSMessages.chExtension`)
 
 The translation script -> event sequence is the only glue: an honest stream is a list of flights (the peer
 sends a flight once E has answered the previous one), items are numbered across flights, and each edit maps to
@@ -14,6 +18,7 @@ events as documented at `itemEvents` / `insEvent`.
 -/
 import Gmsm.Model.Handshake
 import Gmsm.Model.HandshakeSends
+import Gmsm.Model.TLSMessages
 import Driver.KeyAgreement
 namespace Driver.HS
 open Model.Handshake
@@ -388,6 +393,67 @@ def shmodOp (args : List String) : String :=
     | _, _ => "bad-op"
   | _ => "bad-op"
 
+/-- `shmodv <cmax> <smax> <offer|-> <vers:hhhh | suite:hhhh | both:vvvv.ssss>`: a TLS client whose
+    `Config.MaxVersion` is cmax (0000: unset) and a TLS server whose `Config.MaxVersion` is smax.  The client's
+    hello carries `maxVersion()` and the suites of `helloSuitesAt`; the genuine ServerHello is `helloAnswerLim`
+    on it; the client's verdict on the rewritten one is `clientHelloCheckLim`. -/
+def shmodvOp (args : List String) : String :=
+  match args with
+  | [cmax, smax, offer, field] =>
+    match hexList? cmax 4, hexList? smax 4, hexList? offer 4, field.splitOn ":" with
+    | some [cm], some [sm], some cfg, [what, val] =>
+      let (_, dflt, _) := genuineHello "tls"
+      let chi := cfgMax cm
+      let hello := helloSuitesAt chi false (if offer = "-" then dflt else cfg)
+      match helloAnswerLim (cfgMin 0) (cfgMax sm) .tlsOnly true chi hello [0] with
+      | .serverHello w0 s0 =>
+        let new : Option (Nat × Nat) :=
+          if what = "vers" then (match hexList? val 4 with | some [v] => some (v, s0) | _ => none)
+          else if what = "suite" then (match hexList? val 4 with | some [s] => some (w0, s) | _ => none)
+          else if what = "both" then (match hexList? val 4 with | some [v, s] => some (v, s) | _ => none)
+          else none
+        match new with
+        | none => "bad-op"
+        | some (v, su) =>
+          match clientHelloCheckLim (cfgMin 0) chi false hello v su 0 with
+          | .reject a => "rejected:" ++ (match a.code with | some n => toString n | none => "-")
+          | .accept => if (v, su) = (w0, s0) then "done" else "accepted-error"
+      | _ => if (what = "vers" ∨ what = "suite" ∨ what = "both") then "nohello" else "bad-op"
+    | _, _, _, _ => "bad-op"
+  | _ => "bad-op"
+
+/-- the bodies of the server_name and status_request extensions in the hello of the harness's clients
+    (`ServerName` "std.test" / "gm.test"; `makeClientHello` asks for OCSP stapling, `makeClientHelloGM` does not) -/
+def genuineExt (kind : String) (ext : Nat) : Option Gmsm.Bytes :=
+  let sni (name : String) : Gmsm.Bytes :=
+    let n : Gmsm.Bytes := name.toUTF8.toList.map (fun b => BitVec.ofNat 8 b.toNat)
+    Model.TLSMessages.put16 (n.length + 3) ++ ([0] ++ (Model.TLSMessages.put16 n.length ++ n))
+  if ext = 0 then some (sni (if kind = "gm" then "gm.test" else "std.test"))
+  else if ext = 5 ∧ kind = "tls" then some [1, 0, 0, 0, 0]
+  else none
+
+def blankHello : Model.TLSMessages.ClientHelloMsg :=
+  { vers := 0, random := [], sessionId := [], cipherSuites := [], compressionMethods := [], nextProtoNeg := false,
+    serverName := [], ocspStapling := false, scts := false, supportedCurves := [], supportedPoints := [],
+    ticketSupported := false, sessionTicket := [], supportedSignatureAlgorithms := [], secureRenegotiation := [],
+    secureRenegotiationSupported := false, alpnProtocols := [] }
+
+/-- `chext <mode> <kind> <ext> <body hex|->`: only server_name (0) and status_request (5) are served here: what
+    they carry does not influence what the harness's servers negotiate, so an accepted body that differs from the
+    genuine one leads to a ServerHello and, the transcripts differing, to an error later on. -/
+def chextOp (args : List String) : String :=
+  match args with
+  | [mode, kind, ext, body] =>
+    if ¬ (mode = "gm" ∨ mode = "auto" ∨ mode = "tls") ∨ ¬ (kind = "gm" ∨ kind = "tls") then "bad-op" else
+    match ext.toNat?, (if body = "-" then some [] else Gmsm.ofHex body) with
+    | some e, some b =>
+      if ¬ (e = 0 ∨ e = 5) then "bad-op" else
+      match Model.TLSMessages.chExtension blankHello e b.length b with
+      | none => "rejected:10"
+      | some _ => if genuineExt kind e = some b then "done" else "accepted-error"
+    | _, _ => "bad-op"
+  | _ => "bad-op"
+
 end Driver.HS
 
 namespace Driver
@@ -398,10 +464,22 @@ def handshakeDispatch (toks : List String) : Option String :=
   | "hsout" :: rest => some (HS.hsoutOp rest)
   | "chmod" :: rest => some (HS.chmodOp rest)
   | "shmod" :: rest => some (HS.shmodOp rest)
+  | "shmodv" :: rest => some (HS.shmodvOp rest)
+  | "chext" :: rest => some (HS.chextOp rest)
+  -- a session_ticket extension added to the ServerHello for a client that did not offer one (`clientTicketCheck`)
+  | ["shticket", k] =>
+    if k = "gm" ∨ k = "tls" then
+      some (match Model.Handshake.clientTicketCheck false true with
+        | .reject a => "rejected:" ++ (match a.code with | some n => toString n | none => "-")
+        | .accept => "accepted-error")
+    else some "bad-op"
   -- a scripted TLS 1.2 server that holds the server's keys (harness/c15evil.go): the client completes with the honest
   -- one and with no other (intrinsic oracle in the harness: ORACLE-FAIL:completed-on-misbehaviour)
   | ["evilsrv", v, _, _] => some (if v = "honest" then "done" else "error")
   | ["evilgm", v, _, _] => some (if v = "honest" then "done" else "error")
+  -- a scripted TLS 1.2 client that chooses the pre-master secret (harness/c15strict.go): the server completes with the
+  -- honest one and with no other (bytes behind its Finished in the same record: `step … .finishedTrailing`)
+  | ["evilcli", v, _] => some (if v = "honest" then "done" else "error")
   -- key-exchange messages that do not fit the selected suite (harness/c15evil2.go; Model.KeyAgreement)
   | "evilkx" :: rest => some (KX.evilkxOp rest)
   -- a scripted GM client holding its own secrets (VerifEvilClient): the server completes with the variants that
